@@ -56,6 +56,13 @@ func (P) Gen(rng *sim.Rng, tier string) *harness.Case {
 		cfg.HighT = int64(rng.Range(1, int(cfg.LowT)-1))
 		cfg.LowMark = int64(rng.Range(1, 1000)) * 1024
 		cfg.HiMark = cfg.LowMark + int64(rng.Range(1, 100000))
+		if rng.Chance(0.3) {
+			// swarm: production magnitudes (thresholds up to the int32 / int53 range, water marks of GiB to PiB)
+			cfg.LowT = []int64{1000, 1000000, math.MaxInt32, 1 << 40, 1 << 53}[rng.Intn(5)]
+			cfg.HighT = []int64{1, 10, 999, cfg.LowT / 2, cfg.LowT - 1}[rng.Intn(5)]
+			cfg.LowMark = int64(rng.Range(1, 64)) << []uint{20, 30, 30, 40}[rng.Intn(4)]
+			cfg.HiMark = cfg.LowMark + int64(rng.Range(1, 1024))<<[]uint{20, 30, 30, 40, 50}[rng.Intn(5)]
+		}
 		for n := rng.Range(5, 25); len(ops) < n; {
 			var m int64
 			switch rng.Intn(8) {
@@ -328,6 +335,30 @@ func execMemory(c *harness.Case, o *harness.Outcome, cfg *Cfg, clk *sim.Clock) {
 		// traffic: a fresh window admits exactly floor(eff)
 		clk.AdvanceMs(3000)
 		o.SimMs += 3000
+		if cfg.LowT > 200 {
+			// large thresholds: one request of batch floor(eff) fits a fresh window, one of floor(eff)+1 does not
+			if fl := math.Floor(eff); fl >= 1 && fl < math.MaxUint32 {
+				for i, b := range []uint32{uint32(fl), uint32(fl) + 1} {
+					clk.AdvanceMs(3000)
+					o.SimMs += 3000
+					admitted := false
+					harness.Call(o, "C11.panic", step, func() {
+						if e, _ := sentinel.Entry("res-0", sentinel.WithBatchCount(b)); e != nil {
+							admitted = true
+							e.Exit()
+						}
+					})
+					if o.Failed() {
+						return
+					}
+					if admitted != (i == 0) {
+						o.Fail("C11.memory-capacity", step, "memory %d: a fresh window admitted=%v a request of batch %d, effective threshold %v", m, admitted, b, eff)
+						return
+					}
+				}
+			}
+			continue
+		}
 		got := 0
 		for i := 0; i < int(cfg.LowT)+3; i++ {
 			if request(o, step) {
